@@ -249,6 +249,7 @@ def run(ctx):
 
     d6_region_fresh(db, rep)
     region_entries_nonnull(db, rep, "D6b-REGION-NONNULL")
+    d7_backing_fresh(db, rep)
 
     # ---- D3 ------------------------------------------------------------------
     cp = db.func("orc_compiler_compile_program", "orccompiler")
@@ -446,3 +447,48 @@ def region_entries_nonnull(db, rep, rule):
                           "falling back to emulation" % (f.name, r.name), line=x.line)
     if n < 1:
         raise AnalysisBroken("no store into orc_code_regions[] found")
+
+
+def d7_backing_fresh(db, rep):
+    """D7: every code region is backed by storage of its own.  The descriptor handed to mmap() for a region must come from a
+    call that creates a NEW object each time (mkstemp and friends, memfd_create, open with O_CREAT|O_EXCL); a plain
+    open(O_CREAT) of a computed name reopens the file a previous region already maps, and two regions with disjoint address
+    ranges then share their bytes: compiling into one rewrites live functions of the other."""
+    from flow import reaching_defs
+    FRESH = {"mkstemp", "mkostemp", "mkstemps", "memfd_create", "tmpfile"}
+    tu = db.tu("orccodemem")
+    n = 0
+    for f in tu.main_functions():
+        for c in f.calls("mmap"):
+            a = c.args()
+            if len(a) < 5:
+                continue
+            fd = strip_casts(a[4])
+            if fd is None or fd.v == -1 or fd.k != "DeclRefExpr":
+                continue
+            defs = reaching_defs(f, fd.name, c)
+            bad = []
+            for d in defs:
+                r = strip_casts(d.c[1] if d.k == "BinaryOperator" else d.c[0])
+                if r is None:
+                    continue
+                if r.k == "CallExpr" and r.name in FRESH:
+                    continue
+                if r.k == "CallExpr" and r.name in ("open", "open64", "openat"):
+                    fl = r.args()[1] if r.name != "openat" else r.args()[2]
+                    v = strip_casts(fl).v
+                    if v is not None and (v & 0o200):          # O_EXCL on Linux
+                        continue
+                    bad.append("open() without O_EXCL (line %s)" % r.line)
+                    continue
+                if r.v == -1:
+                    continue
+                bad.append("`%s` (line %s)" % (unparse(r)[:40], r.line))
+            n += 1
+            rep.saw(f)
+            rep.check(not bad, "D7-BACKING-FRESH", where(f), "mmap(fd=%s)@%s" % (fd.name, c.line),
+                      "the mapped descriptor comes from a call that creates a new object each time",
+                      "%s maps a descriptor obtained by %s: a second region created by the same process can get the same file, so two regions share "
+                      "their storage and code written into one overwrites live functions of the other" % (f.name, "; ".join(bad)), line=c.line)
+    if n < 2:
+        raise AnalysisBroken("only %d file-backed mmap calls found in orccodemem.c" % n)
